@@ -510,6 +510,24 @@ func runType(c *core.Ctx, limbs int, ops []opCase) {
 		if c.Rng.Intn(8) == 0 {
 			b = append([]uint64{}, a...) // equal operands
 		}
+		if limbs > 1 && c.Rng.Intn(4) == 0 {
+			// two dense factors whose limb counts add up to the width at most: the product fits,
+			// every partial product and every carry chain of the multiplication is exercised
+			la := 1 + c.Rng.Intn(limbs-1)
+			lb := 1 + c.Rng.Intn(limbs-la)
+			a, b = make([]uint64, limbs), make([]uint64, limbs)
+			for i := limbs - la; i < limbs; i++ {
+				a[i] = c.Rng.Uint64()
+			}
+			for i := limbs - lb; i < limbs; i++ {
+				b[i] = c.Rng.Uint64()
+			}
+			if c.Rng.Intn(3) == 0 { // many carries: limbs close to all-ones
+				for i := limbs - la; i < limbs; i++ {
+					a[i] |= ^uint64(0) << uint(c.Rng.Intn(32))
+				}
+			}
+		}
 		if c.Rng.Intn(6) == 0 { // neighbours: b = a ± 1 (wrapping)
 			bb := toBig(a)
 			bb.Add(bb, big.NewInt(int64(2*c.Rng.Intn(2)-1)))
@@ -633,7 +651,7 @@ func init() {
 		ID:    "C20",
 		Level: "exploration",
 		Rule: "each case = one (type, operation) applied to a batch of operand pairs drawn from per-limb boundary words, 2^k-1/2^k/2^k+1, equal and neighbouring operands, random bit lengths and random values, shift amounts 0..width+64 with emphasis on multiples of 64 +-1; the -cross sub-checks apply every operation to EVERY ordered pair of a boundary set (values with one or two adjacent non-zero limbs out of 7 (quick) / 11 (thorough) boundary words, each -1..+1 (quick) / -2..+2 (thorough), and the 8 largest values); " +
-			"Added later: shift amounts far beyond the width (2^31, 2^32, 2^62, 2^63, 2^64-1 and neighbours), the single-limb primitives Uint64.LeftShift64/RightShift64 for n = 0..64 with arbitrary carry-in words (documented result u<<n | low n bits of the carry). " +
+			"Added later: shift amounts far beyond the width (2^31, 2^32, 2^62, 2^63, 2^64-1 and neighbours), the single-limb primitives Uint64.LeftShift64/RightShift64 for n = 0..64 with arbitrary carry-in words (documented result u<<n | low n bits of the carry). One operand pair in four is made of two dense factors whose limb counts add up to the width at most (the product fits; limbs close to all-ones for long carry chains). " +
 			"oracle math/big on raw limbs; distinct_nontrivial = distinct (type, operation, fits/overflows, limb count of a, limb count of b, shift range) classes actually evaluated; division by zero and narrowing of values that do not fit are outside the property and skipped",
 		Assume: []string{"math/big is exact", "the overflow signal is the recoverable log.Panicf of the library", "an operation on at most 256 bits that does not return within 30 s never returns"},
 		Subs: []core.Sub{
